@@ -37,6 +37,7 @@ type facts struct {
 	InitCalls    [][3]string         `json:"init_calls"`    // file, func, method called on the receiver
 	LockUse      [][3]string         `json:"lock_use"`      // file, func, Lock|RLock|none
 	SQLNid       [][3]string         `json:"sql_nid"`       // file, func, verdict for every raw SQL literal on keto_relation_tuples
+	WidthSites   [][3]string         `json:"width_sites"`   // file, func, "MaxReadWidth" for every function of the engines that reads the width limit
 	StructFields [][3]string         `json:"struct_fields"` // file, struct type, "field: type" for every field of the engines (they hold their dependencies and nothing else)
 	UUIDDerive   [][3]string         `json:"uuid_derive"`   // file, func, "NewV5:<namespace argument>" for every uuid.NewV5 call / "calls:<method>" for the mapping methods a mapping method calls on its receiver
 	BatchGuards  [][3]string         `json:"batch_guards"`  // file, func, comparison operator of len(…Tuples) against BatchCheckMaxBatchSize()
@@ -290,6 +291,28 @@ func (f *facts) depth(repo, rel, depthVar string, callees map[string]bool) {
 			}
 			return true
 		})
+	}
+}
+
+// widthSites: the functions that read limit.max_read_width (the model applies the width limit to the subject-set
+// expansion of a direct check and nowhere else).
+func (f *facts) widthSites(repo, rel string) {
+	af := f.parse(repo, rel)
+	for _, d := range af.Decls {
+		fd, ok := d.(*ast.FuncDecl)
+		if !ok || fd.Body == nil {
+			continue
+		}
+		n := 0
+		ast.Inspect(fd.Body, func(x ast.Node) bool {
+			if se, ok := x.(*ast.SelectorExpr); ok && se.Sel.Name == "MaxReadWidth" {
+				n++
+			}
+			return true
+		})
+		for i := 0; i < n; i++ {
+			f.WidthSites = append(f.WidthSites, [3]string{rel, funcName(fd), "MaxReadWidth"})
+		}
 	}
 }
 
@@ -767,6 +790,9 @@ func main() {
 	f.lockUse(*repo, "internal/x/graph/graph_utils.go")
 	f.batchGuards(*repo, "internal/check/handler.go")
 	f.uuidDerive(*repo, "internal/persistence/sql/uuid_mapping.go")
+	for _, rel := range []string{"internal/check/engine.go", "internal/check/rewrites.go", "internal/check/binop.go", "internal/expand/engine.go", "internal/persistence/sql/traverser.go"} {
+		f.widthSites(*repo, rel)
+	}
 	f.structFields(*repo, "internal/check/engine.go", "Engine")
 	f.structFields(*repo, "internal/expand/engine.go", "Engine")
 	f.schemaDefaults(*repo, "embedx/config.schema.json")
@@ -827,6 +853,7 @@ func main() {
 	table3("batchGuards", f.BatchGuards)
 	table3("uuidDerive", f.UUIDDerive)
 	table3("structFields", f.StructFields)
+	table3("widthSites", f.WidthSites)
 	// translated depth conditions and depth arguments (regenerated model fragments)
 	b.WriteString("\n/-! Depth tests and depth arguments of the engines, translated from the Go expressions. -/\n")
 	for _, d := range f.leanDefs {
